@@ -1,13 +1,13 @@
-\* C21 thorough: every pair of comments on every statement / declaration / class shape
+\* C21 thorough: every pair of comments on every statement shape
 SPECIFICATION LSpec
 CONSTANTS
   Foci = {"lit"}
   Sizes <- SmallSizes
-  LFoci = {"stmt", "decl", "class", "pairs"}
+  LFoci = {"stmt", "pairs"}
   Bases = {"canon"}
   MaxGap = 0
   MaxCm = 2
-  CmKinds = {"//", "/*", "#"}
+  CmKinds = {"//", "/*"}
   MutKinds = {}
   PoolN = 1
 INVARIANTS RescanOK CommentsOK GapsLegal TreeKept LShapesOK LExport
